@@ -182,7 +182,7 @@ ADDED = {
  "C10": ("; the code paths of the build without 128-bit integers / native-endian loads modelled and proved: radix-2^25.5 field arithmetic (re-transcribed from the source every run), poly1305_donna32, byte-shift load / store fallbacks",
          " For the build without 128-bit integers the 25.5-bit field code (no signed overflow under the proved bounds; = GF(2^255-19); X25519 over it = RFC 7748 = X25519 over the 51-bit code) and poly1305_donna32 (for 32- and 64-bit unsigned long; = spec = donna64) are modelled and proved, and the byte-shift load / store fallbacks of common.h are proved equal to the memcpy forms, so the existing C-structured models speak for the portable build as well."),
  "C01": ("; portable AEGIS-128L/256 code (generic *_common.h + table-based software AES round) modelled statement by statement and proved equal to the AEGIS specification for every length (Properties/C01Aegis.lean)",
-         " The portable AEGIS code is modelled in the C's structure (state update, absorb / enc / dec / declast loops, mac, wrappers, the strided constant-time T-table AES round) and proved equal to Spec AEGIS for every key, nonce, AD and message length, with the round trip; the driver runs AEGIS through this model; the AES-NI instantiation of the same generic code (AESENC defined through the FIPS 197 round and validated against the CPU on every run) is proved equal to the specification and to the portable build (C01AegisAesni)."),
+         " The portable AEGIS code is modelled in the C's structure (state update, absorb / enc / dec / declast loops, mac, wrappers, the strided constant-time T-table AES round) and proved equal to Spec AEGIS for every key, nonce, AD and message length, with the round trip; the driver runs AEGIS through this model; the AES-NI instantiation of the same generic code (AESENC defined through the FIPS 197 round and validated against the CPU on every run) is proved equal to the specification and to the portable build (C01AegisAesni). AES-256-GCM (the AES-NI / PCLMULQDQ code, the only implementation of that API) is modelled function by function and proved equal to SP 800-38D end to end: FIPS 197 key schedule and cipher, counter blocks incl. the byte carries inside and between the 7-block batches, carry-less multiplication + reduction = GF(2^128) multiplication, aggregated GHASH with precomputed powers = sequential GHASH, the pipelined encrypt / decrypt loops and tails, wrappers and limits (Properties/C01Gcm, 32 theorems over 472 lemmas; intrinsic semantics validated against the CPU on every run)."),
  "C02": ("; AEGIS decrypt verdict / failure-output theorems over the C-structured model",
          " For AEGIS the decision logic is proved over the C-structured model: rc = 0 iff the specification accepts, on failure the output is zeroed or untouched, inputs shorter than the tag rejected."),
  "C03": ("; reference cores and the VECTORISED ChaCha20 code (dolbeau u0/u1/u4/u8 over a transcribed SSE/AVX2 intrinsic semantics) proved equal to the reference model, hence to RFC 8439, for every key, nonce, 64-bit counter and length",
